@@ -178,7 +178,9 @@ def flatten_rules(case: int, pos: int, extra: int) -> bool:
         part[_ranks_key(["M", "K"])] = [_dir(extra)]
     elif case == 6:
         part[_ranks_key(["M", "K"])] = [_dir(3)]
-        part[_ranks_key(["MK"])] = [_dir(0)] if extra != 1 else [_dir(1)]
+        # a shape split of the flattened rank, alone (uniform / n-way) or after an occupancy split of it
+        part[_ranks_key(["MK"])] = [[_dir(0)], [_dir(1)], [_dir(2), _dir(0)]][extra] if pos == 0 else \
+            [[_dir(2), _dir(2), _dir(0)], [_dir(2), _dir(1)], [_dir(0), _dir(2)]][extra]
         exp_error = True
     elif case == 7:
         part[_ranks_key(["M", "K"])] = [_dir(3)]
